@@ -73,6 +73,12 @@ def translate_statement(  # noqa: C901
         target = stmt.targets[0].id
 
         tval, val = translate_expression(stmt.value, env)  # TODO: typecheck
+
+        if len(get_args(tval)) > 0 and isinstance(val, list):
+            # a tuple typed name evaluates to a flat list of bits: name the bits of
+            # the target as translate_argument would (target.0.0, ...)
+            val = _nest_as_type(_flatten_exp(val), tval)
+
         res = decompose_to_symbols(val, f"{target}")
 
         env.bind(Binding(target, tval, [x[0] for x in res]), rebind=target in env)
